@@ -18,6 +18,7 @@ import os
 import common
 
 MODES = ["mirror", "mirror-rev", "mirror-rot", "spec"]
+NSLICES = 64     # quick tier: slices of the n = 5 space
 
 
 def sweep_jobs(n, ranges, chunks_per=1):
@@ -136,7 +137,7 @@ def run(ctx, proofs):
         jobs += [(n, lo, hi) for lo, hi in split(0, 1 << (n * (n - 1)), 1 if n < 4 else (16 if n == 4 else 256))]
     slices = []
     if quick:
-        for _ in range(24):
+        for _ in range(NSLICES):
             lo = ctx.rng.randrange(0, (1 << 20) - 2048)
             slices.append((5, lo, lo + 2048))
         jobs += slices
@@ -155,7 +156,7 @@ def run(ctx, proofs):
             disagreements, failing, nontrivial, stats)
     evaluations += n_sweep
     # (b) seeded random rooted digraphs, (c) corpus
-    nrand = 12000 if quick else 150000
+    nrand = 25000 if quick else 150000
     gen = [random_graph(ctx.rng) for _ in range(nrand)]
     lines = corpus_lines() + [g for g, _ in gen]
     pb_hist = {}
@@ -193,7 +194,7 @@ def run(ctx, proofs):
                 "(spanning tree from 0 of random depth, forward/cross edges, per-node back-edge probability from "
                 "{0,.05,.1,.2,.3,.4,.5}, node numbers shuffled) and the corpus; distinct-nontrivial = distinct result "
                 "(dominator sets, idom, children, frontiers) among graphs with at least one non-empty dominance frontier"
-                % (top, ", plus 24 seeded slices of 2048 consecutive edge sets of the n = 5 space" if quick else "", nrand),
+                % (top, ", plus %d seeded slices of 2048" % NSLICES + " consecutive edge sets of the n = 5 space" if quick else "", nrand),
         "exhaustive": False,
         "exhaustive_part": "all rooted digraphs with n <= %d: %d graphs%s" % (
             top, n_sweep - (sum(1 for h in heads_i if h.startswith("5 ")) if quick else 0),
